@@ -29,6 +29,7 @@ func genConf(r *rand.Rand) conf {
 		maxVerify:    r.Intn(4),
 		maxCount:     r.Intn(4),
 		ttlNever:     r.Intn(100) < 75,
+		expiredBy:    r.Intn(3),
 		ivNever:      r.Intn(100) < 70,
 		refreshNever: r.Intn(2) == 0,
 	}
@@ -390,6 +391,7 @@ func sendlimitCase(k *engine.Case) {
 	r := k.R
 	cf := genConf(r)
 	cf.ttlNever = r.Intn(10) < 8
+	cf.expiredBy = r.Intn(3)
 	cf.ivNever = r.Intn(10) < 6
 	if cf.maxVerify == 0 && r.Intn(2) == 0 {
 		cf.maxVerify = 3
@@ -466,6 +468,7 @@ func lifetimeCase(k *engine.Case) {
 	r := k.R
 	cf := genConf(r)
 	cf.ttlNever = r.Intn(2) == 0
+	cf.expiredBy = r.Intn(3)
 	cf.ivNever = true
 	cf.maxVerify = 1 + r.Intn(3)
 	cf.maxCount = 1 + r.Intn(3)
